@@ -192,6 +192,81 @@ Section EofNotFinal.
   Qed.
 End EofNotFinal.
 
+(* ------------------------------------------------------------------ any use of a VerifyReader *)
+Section EofAnyUse.
+  Variable H : str -> str -> str.
+  Variable comb : bool.
+
+  (* inv4, or: verified (then the reader is inert at EOF and U = out) *)
+  Definition inv5 (U : str) (v : vrd) (out : str) : Prop :=
+    (v_verified v = false /\ inv4 U v out) \/
+    (v_verified v = true /\ v_err v = Some EEof /\ U = out).
+
+  Lemma vr_read_inv5 U v out k bs e v' :
+    inv5 U v out -> vr_read comb v k = ((bs, e), v') -> inv5 U v' (out ++ bs).
+  Proof.
+    intros [[V I]|(V & Ee & Eq)] E.
+    - left. pose proof (vr_read_inv4 comb _ _ _ _ _ _ _ I E) as I'. split; [apply I'|exact I'].
+    - unfold vr_read in E. rewrite Ee in E. inversion E; subst. rewrite app_nil_r. right. auto.
+  Qed.
+
+  Lemma vr_verify_inv5 U fuel dg v out r v' :
+    inv5 U v out -> vr_verify H comb fuel dg v = (r, v') -> inv5 U v' out /\ (r = None -> U = out).
+  Proof.
+    intros [[V I]|(V & Ee & Eq)] E.
+    - destruct r as [e|].
+      + (* an error: either nothing changed (early / an older error) or the reader is now
+           in an error state other than EOF, about which inv4 says nothing *)
+        split; [|discriminate]. left.
+        assert (Dead : forall b N h e0 x, lim_none b = true -> x <> EEof ->
+                  v_verified (set_err (mkVr b N h e0 false) x) = false /\ inv4 U (set_err (mkVr b N h e0 false) x) out).
+        { intros b N h e0 x L Nx. unfold inv4, set_err; simpl. repeat split; auto; intro Q; inversion Q; congruence. }
+        pose proof I as (I1 & I2 & I3 & I4). unfold vr_verify in E. rewrite I1 in E.
+        destruct (ensure_eof comb fuel (v_base v, v_hashed v)) as [ok [b1 h1]] eqn:Eo.
+        pose proof (ensure_eof_spec comb _ _ _ _ _ _ Eo) as (Cl & _).
+        assert (L1 : lim_none b1 = true) by congruence.
+        destruct (v_err v) as [e0|] eqn:Ee0.
+        * destruct e0; try (inversion E; subst; split; [exact I1|exact I]; fail).
+          destruct (negb ok); [inversion E; subst; apply Dead; auto; discriminate|].
+          destruct (verified H dg h1); inversion E; subst. apply Dead; auto; discriminate.
+        * destruct (v_N v >? 0)%Z; [inversion E; subst; split; [exact I1|exact I]|].
+          destruct (negb ok); [inversion E; subst; apply Dead; auto; discriminate|].
+          destruct (verified H dg h1); inversion E; subst. apply Dead; auto; discriminate.
+      + pose proof (vr_verify_inv4 H comb _ _ _ _ _ _ I E) as Eq. split; auto.
+        right. destruct I as (I1 & _). unfold vr_verify in E. rewrite I1 in E.
+        destruct (ensure_eof comb fuel (v_base v, v_hashed v)) as [ok [b1 h1]].
+        destruct (v_err v) as [e0|].
+        * destruct e0; try discriminate. destruct (negb ok); [discriminate|].
+          destruct (verified H dg h1); inversion E; subst. auto.
+        * destruct (v_N v >? 0)%Z; [discriminate|]. destruct (negb ok); [discriminate|].
+          destruct (verified H dg h1); inversion E; subst. auto.
+    - unfold vr_verify in E. rewrite V in E. inversion E; subst. split; auto. right. auto.
+  Qed.
+
+  Lemma vr_run_inv5 U fuel dg ops : forall v out v' out',
+    inv5 U v out -> vr_run H comb fuel dg ops v out = (v', out') -> inv5 U v' out'.
+  Proof.
+    induction ops as [|[k|] r IH]; intros v out v' out' I; simpl.
+    - intro E; inversion E; subst; auto.
+    - destruct (vr_read comb v k) as [[bs e] v1] eqn:Er. apply IH. eapply vr_read_inv5; eauto.
+    - destruct (vr_verify H comb fuel dg v) as [e v1] eqn:Ev. apply IH.
+      exact (proj1 (vr_verify_inv5 _ _ _ _ _ _ _ I Ev)).
+  Qed.
+
+  (* any sequence of Read(k) and Verify calls on any reader script: once Verify returns
+     nil, the bytes read are exactly what the reader delivered before its first EOF *)
+  Theorem verify_reader_upto_eof fuel evs dg sz ops v out v' :
+    vr_run H comb fuel dg ops (new_vr true (mkBase evs None) dg sz) [] = (v, out) ->
+    vr_verify H comb fuel dg v = (None, v') -> upto_eof evs = out.
+  Proof.
+    intros Er Ev.
+    assert (I : inv5 (upto_eof evs) (new_vr true (mkBase evs None) dg sz) []).
+    { left. pose proof (new_vr_inv4 true evs dg sz) as I4. split; [apply I4|exact I4]. }
+    pose proof (vr_run_inv5 _ _ _ _ _ _ _ _ I Er) as I'.
+    exact (proj2 (vr_verify_inv5 _ _ _ _ _ _ _ I' Ev) eq_refl).
+  Qed.
+End EofAnyUse.
+
 Lemma accepts_upto_eof (H : str -> str -> str) comb fixed fuel evs bufsz dg sz :
     (forall buf v, read_all H comb fixed fuel (mkBase evs None) dg sz = ((None, buf), v) -> upto_eof evs = buf) /\
     (forall out v, copy_buffer H comb fixed fuel (mkBase evs None) bufsz dg sz = ((None, out), v) -> upto_eof evs = out).
